@@ -139,6 +139,20 @@ CLAIMED = {
         note=TRUST + "Reconstruction to numerical precision, isometry, ordering and sign conventions are LAPACK's contract: ASSUMED, listed under not_decided in the evidence. eig and low-rank policies not covered.",
         technique='AST-to-SMT symbolic execution of the real factorisation glue against structural contracts; LAPACK kernels as assumed contracts with checked preconditions',
     ),
+    'C08': dict(
+        category='proof',
+        text=("BOOKKEEPING clauses. The real orthogonalize_site_, diagonalize_central_, absorb_central_, canonize_, truncate_, norm (and "
+              "__init__/sweep/shallow_copy) of the MPS classes are interpreted with ghost site tensors scale*word (contraction along the chain "
+              "multilinear and associative): orthogonalize_site_/absorb_central_/canonize_/diagonalize_central_ with non-binding limits leave "
+              "state = factor*prod(scales)*word unchanged when normalize=False (scalar identity by z3, tensor network equal up to the gauge "
+              "rewrite q.r -> A, u.s.v -> C) and set factor = 1 otherwise; the central block sits on the bond towards the target, a second one "
+              "is rejected, absorption goes to the next site of the sweep (back into the site at chain ends), canonize_ ends without central "
+              "block with every site but the last isometric in sweep direction; diagonalize_central_ returns |discarded|/|S| in [0,1] and puts "
+              "the kept norm into the factor; truncate_ visits every bond once in sweep order and reports err^2 = 1 - prod(1 - d_k^2)."),
+        design_ref='DESIGN.md §5 C08',
+        note="Trusted: pyvc, z3 (polynomial reals), the ghost contracts of qr/svd/masks/ncon on site tensors (Q, U, V isometric, |S| = |C|, complementary masks partition the spectrum) which also pin the MPS leg convention of every call. NOT decided: tensors ARE isometries, Schmidt values/entropies equal those of the dense state, unit norm after normalize=True (floating point / LAPACK). Chain lengths 1..5 (quick) / 1..7 (thorough).",
+        technique='symbolic execution of the real MPS methods on ghost tensors (modular contracts for tensor operations), state equality as real-scalar VC + word rewriting',
+    ),
     'C13': dict(
         category='proof',
         text=("The real truncation_mask is interpreted on spectra of symbolic non-negative reals spread over charge sectors, with symbolic tol, "
